@@ -239,9 +239,9 @@ func runC03(c *Ctx) {
 	cut := env.FaultSet{LostClose: true, AckLost: true, WriteErr: true, ConnRefuse: true, DialErr: true}
 	cl := env.FaultSet{LostClose: true, AckLost: true}
 	fams := []fam{
-		{"N2.F2", 2, []string{"p1", "p2", "sub"}, []byte{'B', 'N', 'H'}, vrt.Budget{F: 2}, cl},
-		{"N2.F1.all", 2, []string{"p0", "p1", "p2", "sub", "unsub"}, []byte{'B', 'S', 'N', 'O', 'H'}, vrt.Budget{F: 1}, cut},
-		{"N3.F1", 3, []string{"p1", "p2", "sub"}, []byte{'B', 'N'}, vrt.Budget{F: 1}, cut},
+		{"N2.F2", 2, []string{"p1", "p2"}, []byte{'N', 'H'}, vrt.Budget{F: 2}, cl},
+		{"N2.F1.all", 2, []string{"p0", "p1", "p2", "sub"}, []byte{'B', 'N', 'O', 'H'}, vrt.Budget{F: 1}, cut},
+		{"N3.F1", 3, []string{"p1", "p2", "sub"}, []byte{'B', 'N'}, vrt.Budget{F: 1}, cl},
 		{"N3.F2.pub", 3, []string{"p1", "p2"}, []byte{'N'}, vrt.Budget{F: 2}, cl},
 	}
 	if c.Thorough() {
